@@ -3,7 +3,8 @@
    (Model/WfOps.v) is computable: every call satisfies the ordinary POSIX preconditions in the
    state reached so far. *)
 From AF Require Import Lib.Bytes Lib.Path Lib.Ops Gen.Consts Model.MemFile Model.MemFs Model.WfOps
-  Proofs.MemFsPath Proofs.MemFsWF Proofs.MemFsStep Proofs.MemFsRename Proofs.MemFsInv.
+  Proofs.MemFsPath Proofs.MemFsBasics Proofs.MemFsWF Proofs.MemFsStep Proofs.MemFsRename Proofs.MemFsInv
+  Proofs.MemFsNoop.
 Local Open Scope Z_scope.
 
 (* 1. The per-directory child index mirrors the path map after every well-formed sequence
@@ -26,6 +27,15 @@ Print Assumptions C01_step_preserves_WF.
 Theorem C01_WF_meaning : forall s, WF s -> WF_plain s.
 Proof. exact WF_meaning. Qed.
 Print Assumptions C01_WF_meaning.
+
+(* 2. A failed call changes nothing: the path map and every node (names, kinds, contents, modes,
+      times, child indexes) are exactly what they were.  Covers every call that returns an error:
+      EEXIST / ENOENT of the path calls, and the handle calls on closed or read-only handles,
+      negative offsets, out-of-range truncation (and would-be panics). *)
+Theorem C01_failed_call_is_noop : forall s o, WF s -> wf_op s o = true ->
+  res_is_err (snd (m_step s o)) = true -> fs_view (fst (m_step s o)) = fs_view s.
+Proof. exact failed_call_is_noop. Qed.
+Print Assumptions C01_failed_call_is_noop.
 
 (* ---------- non-vacuity ---------- *)
 Local Open Scope N_scope.
@@ -53,3 +63,14 @@ Example C01_ex_rejects :
   wf_seq m_init [Create [47;102]; Mkdir [47;102;47;100] 493] = false /\
   wf_seq m_init [MkdirAll [47;97;47;98] 493; Remove [47;97]] = false.
 Proof. vm_compute. auto. Qed.
+
+(* failing calls in the demo state: each returns an error and leaves the snapshot unchanged *)
+Definition c01_demo2 : mst := fst (run_steps m_step m_init
+  [MkdirAll [47;97;47;98] 493%Z; Create [47;97;47;102]; HWrite 0 [7;8]; HClose 0; Open [47;97;47;102]]).
+Example C01_ex_failures :
+  map (fun o => (wf_op c01_demo2 o, res_is_err (snd (m_step c01_demo2 o)),
+                 beqb (concat (map e_path (snapshot (fst (m_step c01_demo2 o))))) (concat (map e_path (snapshot c01_demo2)))))
+    [Mkdir [47;97] 493%Z; Remove [47;122]; Rename [47;122] [47;121]; OpenFile [47;97;47;102] (Z.lor o_create o_excl) 0%Z;
+     HWrite 0 [1]; HWrite 1 [1]; HSeek 1 (-5)%Z 0%Z; HTruncate 1 3%Z; Stat [47;97;47;98;47;99]]
+  = repeat (true, true, true) 9.
+Proof. vm_compute. reflexivity. Qed.
